@@ -114,10 +114,44 @@ func tracedMine(ver string, workers int, data []byte, target float64, cancelAfte
 	}
 	var nonce uint64
 	var err error
-	if ver == "v1" {
-		nonce, err = pow.New(workers).Mine(ctx, data, target)
-	} else {
-		nonce, err = powv2.New(workers).Mine(ctx, data, uint64(target))
+	finished := make(chan struct{})
+	go func() {
+		defer close(finished)
+		if ver == "v1" {
+			nonce, err = pow.New(workers).Mine(ctx, data, target)
+		} else {
+			nonce, err = powv2.New(workers).Mine(ctx, data, uint64(target))
+		}
+	}()
+	// watchdog: every scenario either has an attainable target or is cancelled, so Mine must return; a call that
+	// does not is reported as a hang (with its trace) instead of blocking the run
+	limit := 30 * time.Second
+	if cancelAfter > 0 {
+		limit += cancelAfter
+	}
+	hung := ""
+	select {
+	case <-finished:
+	case <-time.After(limit):
+		hung = "HANG"
+		if atomic.LoadInt64(&cancelledNano) == 0 {
+			cancel()
+			select {
+			case <-finished:
+				hung = "HANG-until-cancelled"
+			case <-time.After(5 * time.Second):
+			}
+		}
+	}
+	if hung != "" {
+		lg.mu.Lock()
+		evs := append([]string(nil), lg.evs...)
+		lg.mu.Unlock()
+		trace = "_"
+		if len(evs) > 0 {
+			trace = strings.Join(evs, ",")
+		}
+		return trace, hung, runtime.NumGoroutine() - before, limit
 	}
 	returned := time.Now().UnixNano()
 	if c := atomic.LoadInt64(&cancelledNano); c != 0 && returned > c {
@@ -161,6 +195,8 @@ func init() {
 // return, more than 2 s between cancel() and the return, an unexpected error, ErrCancelled without a cancel.
 func mineRuntime(result string, leaked int, elapsed time.Duration, cancels bool) string {
 	switch {
+	case strings.HasPrefix(result, "HANG"):
+		return result
 	case leaked > 0:
 		return fmt.Sprintf("goroutines-leaked:%d", leaked)
 	case elapsed > 2*time.Second:
